@@ -201,8 +201,16 @@ typedef struct elliptic_curve_proj_pf_fpx_pre_dbl_mult_data_s {
 #ifndef EC_PF_FXP_MULT_WIN_BITS
 #	define EC_PF_FXP_MULT_WIN_BITS	8
 #endif
-/* Number of points for precomputed points. */
-#define EC_PF_FXP_MULT_NUM_POINTS ((((size_t)1) << EC_PF_FXP_MULT_WIN_BITS) - 1)
+/* Number of points for precomputed points.  The table types are shared with the
+ * unknown point multiplication: size them for the wider of the two windows. */
+#ifndef EC_PF_UNKPT_MULT_WIN_BITS
+#	define EC_PF_UNKPT_MULT_WIN_BITS	2
+#endif
+#if EC_PF_UNKPT_MULT_WIN_BITS > EC_PF_FXP_MULT_WIN_BITS
+#	define EC_PF_FXP_MULT_NUM_POINTS ((((size_t)1) << EC_PF_UNKPT_MULT_WIN_BITS) - 1)
+#else
+#	define EC_PF_FXP_MULT_NUM_POINTS ((((size_t)1) << EC_PF_FXP_MULT_WIN_BITS) - 1)
+#endif
 
 
 typedef struct elliptic_curve_pf_fpx_sl_win_mult_data_s {
